@@ -78,9 +78,22 @@ theorem datagram_received_prog_safe : safeSock false false false Gen.datagram_re
     `sendto` has tested `enabled` or comes after `enable()` -/
 theorem exit_data_prog_safe : safeExit false false Gen.exit_data_prog = true := exit_data_prog_safe'
 /-- in `on_data`, every path to `exit_data` has tested that the destination is not ("0.0.0.0", 0) and that the cell is not
-    taken as a cell of an own circuit; every path to the re-dispatch `on_packet_from_circuit` has tested that the payload is not
-    itself a DATA cell (fix 6e0f2ad) -/
+    taken as a cell of an own circuit; every path to the re-dispatch `on_packet_from_circuit` (which runs a cell handler with
+    the sender-chosen origin as source address) has tested that the message type is registered to arrive through an exit
+    (fixes 6e0f2ad, 5d1ce5c) -/
 theorem on_data_prog_safe : safeOnData false false false Gen.on_data_prog = true := on_data_prog_safe'
+
+/-- none of the message types declared `from_exit=True` in the source is DataPayload: the re-dispatch of an exit message can
+    never lead back into `on_data` (and from there to `exit_data`) -/
+theorem data_is_not_an_exit_message : Gen.EXIT_MSG_IDS_DECLARED.contains Gen.DATA_MSG_ID = false := by decide
+
+/-- the model's `on_data` hands a payload to `on_packet_from_circuit` (output `loc _ 0`) only if its message id is one of
+    the node's exit message ids — for EVERY state, cell and payload: a ping / create / created / extend / … nested in a DATA
+    cell is never dispatched to its handler, whatever origin address the sender wrote into the cell -/
+theorem redispatch_only_exit_messages (st : St) (ip : Bytes) (sp c : Nat) (d : Dest) (p : Bytes) (c' : Nat)
+    (h : Out.loc c' 0 ∈ (step st (.data ip sp c d p)).2) :
+    ∃ b, p[22]? = some b ∧ st.exitIds.contains b.toNat = true :=
+  redispatch_guard st ip sp c d p c' h
 
 /-- the checks are not vacuous: dropping the gate, the null test or the hop test is rejected -/
 example : safeSock false false false (.ite .hasTransport (.act .transportSend .done) (.act .queueAppend .done)) = false := by
@@ -98,9 +111,13 @@ example : safeSock false false false
 example : safeExit false false
     (.ite .knownCircuit (.ite .sockEnabled (.act .sendto .done)
       (.ite .srcIpIsHopIp (.act .enable (.act .sendto .done)) (.act .sendto .done))) .done) = false := by decide
-/-- `on_data` as it was before fix 6e0f2ad (re-dispatch without the nested-DATA test) is rejected -/
+/-- `on_data` as it was before the fixes (re-dispatch of every own-overlay payload) is rejected -/
 example : safeOnData false false false
     (.ite .ownCircuit (.ite .ownPrefix (.act .deliverOwn .done) (.act .deliverRaw .done))
+      (.ite .destIsNull .done (.act .exitData .done))) = false := by decide
+/-- … and so is a re-dispatch in the branch where the message type is NOT an exit message -/
+example : safeOnData false false false
+    (.ite .ownCircuit (.ite .ownPrefix (.ite .exitMessage .done (.act .deliverOwn .done)) (.act .deliverRaw .done))
       (.ite .destIsNull .done (.act .exitData .done))) = false := by decide
 /-- `on_data` whose own-circuit branch falls through into the exit part is rejected -/
 example : safeOnData false false false
@@ -304,12 +321,15 @@ example : ((run exSt [.data [57, 46, 57, 46, 57, 46, 57] 999 7 exDest exDht]).1.
 example : (run exSt [.data exSock.hopIp 999 7 ⟨.dom, [48], 0⟩ exDht, .open4 7, .open6 7,
     .resolved 7 0 [(false, zeroHost)]]).2 = [([Gen.PEER_FLAG_RELAY, Gen.PEER_FLAG_EXIT_BT], .resolve 7 [48] 0 exDht)] := by decide
 
-/-- a DATA cell on an own circuit whose payload is itself a DATA cell of this overlay is dropped (fix 6e0f2ad); the same
-    cell with another message id is a local delivery; neither touches the exit socket -/
-example : (step { exSt with pfx := 0 :: 2 :: List.replicate 20 7, circs := [⟨555, [57], 4000, false⟩] }
+/-- a DATA cell on an own circuit whose payload is a DATA cell (id 1) or a ping (id 6) of this overlay is dropped (fixes
+    6e0f2ad, 5d1ce5c); a message type registered to arrive through an exit (here id 18) is handed to its handler; none of
+    them touches the exit socket -/
+example : (step { exSt with pfx := 0 :: 2 :: List.replicate 20 7, circs := [⟨555, [57], 4000, false⟩], exitIds := [17, 18] }
     (.data [57] 4000 555 ⟨.v4, zeroHost, 0⟩ ((0 :: 2 :: List.replicate 20 7) ++ [1, 0, 0, 0, 7, 1, 2]))).2 = [] := by decide
-example : (step { exSt with pfx := 0 :: 2 :: List.replicate 20 7, circs := [⟨555, [57], 4000, false⟩] }
-    (.data [57] 4000 555 ⟨.v4, zeroHost, 0⟩ ((0 :: 2 :: List.replicate 20 7) ++ [9, 0, 0, 0, 7, 1, 2]))).2 = [.loc 555 0] := by
+example : (step { exSt with pfx := 0 :: 2 :: List.replicate 20 7, circs := [⟨555, [57], 4000, false⟩], exitIds := [17, 18] }
+    (.data [57] 4000 555 ⟨.v4, zeroHost, 0⟩ ((0 :: 2 :: List.replicate 20 7) ++ [6, 0, 0, 0, 7, 1, 2]))).2 = [] := by decide
+example : (step { exSt with pfx := 0 :: 2 :: List.replicate 20 7, circs := [⟨555, [57], 4000, false⟩], exitIds := [17, 18] }
+    (.data [57] 4000 555 ⟨.v4, zeroHost, 0⟩ ((0 :: 2 :: List.replicate 20 7) ++ [18, 0, 0, 0, 7, 1, 2]))).2 = [.loc 555 0] := by
   decide
 
 /-- an allowed outside datagram is tunnelled back, a forbidden one is not -/
